@@ -1003,3 +1003,184 @@ contract("ghost:pa_failed_slice_write_then_read", params=dict(a=SPFT, key=TSlice
          ensures=["result == aitem(old(fs), a.__underlying_array.__local_path, a.__underlying_array.__item_num_in_one_file, "
                   "a.__underlying_array.__item_size, k)"],
          modifies_ghost=FGHOST, props=["C19"])
+
+
+# =====================================================================================================================
+# C20  BytesShelf (write-back shelf over a dbm handle) and DBMDict, within one open session (D3: the handle is a dict)
+# =====================================================================================================================
+BSM = "data_persistence/bytes_shelf.py:"
+BS = BSM + "BytesShelf"
+BST = TObj(BS)
+klass(BS, fields=dict(dict=BB, _protocol=TInt, writeback=TBool, cache=BB))
+_vpk, _vunpk = externals.pickle_fns(TBytes)
+pickled_v = specfn("pickled_v", [TBytes], TBytes, py=lambda b: _pickle.dumps(b))
+unpickled_v = specfn("unpickled_v", [TBytes], TBytes, py=lambda b: _pickle.loads(b))
+pickled_v.decl, unpickled_v.decl = _vpk, _vunpk
+_vb = z3.Const("pv_b", BYTES)
+axiom("P1_v", [_vb], _vunpk(_vpk(_vb)) == _vb, patterns=[_vpk(_vb)], auto=True, note="P1: pickle round trip of a byte string (Pickler/Unpickler over BytesIO)")
+
+
+@external("io.BytesIO", "B6: io.BytesIO holds the bytes written to / given to it")
+def _bytesio(E, a, kw, fr, node):
+    return E.alloc(("ext", "bytesio", (E.to_sv(a[0], TBytes) if a else SV(z3.Empty(BYTES), TBytes),)))
+
+
+@external("bytesio.getvalue", "B6")
+def _bio_get(E, a, kw, fr, node):
+    return E.cell(a[0])[2][0]
+
+
+@external("pickle.Unpickler", "P1: Unpickler(f).load() is pickle.loads of f's contents")
+def _unpickler(E, a, kw, fr, node):
+    return E.alloc(("ext", "unpickler", (a[0],)))
+
+
+@external("unpickler.load", "P1")
+def _unpickler_load(E, a, kw, fr, node):
+    f = E.cell(a[0])[2][0]
+    return externals.Unpickled(E.cell(f)[2][0])
+
+
+@external("pickle.Pickler", "P1: Pickler(f, protocol).dump(x) appends pickle.dumps(x) to f")
+def _pickler(E, a, kw, fr, node):
+    return E.alloc(("ext", "pickler", (a[0],)))
+
+
+@external("pickler.dump", "P1")
+def _pickler_dump(E, a, kw, fr, node):
+    f = E.cell(a[0])[2][0]
+    data = externals.EXT["pickle.dumps"](E, [a[1]], {}, fr, node)
+    cur = E.cell(f)[2][0]
+    E.setcell(f, ("ext", "bytesio", (SV(z3.Concat(cur.t, data.t), TBytes),)))
+    return None
+
+
+def shelf_inv(who="self"):
+    """every cached value is the unpickled record of a key that is present (the cache never disagrees with the store)"""
+    def f(E, env):
+        flds = E.cell(_obj(E, env, who))[2]
+        def dt(v):
+            if isinstance(v, Ref) and E.cell(v)[0] == "pydict" and not E.cell(v)[1]:
+                return z3.K(BYTES, OBY.none)          # the empty literal {}
+            return E.cell(v)[1].t if isinstance(v, Ref) else v.t
+        d, c = _named(E, dt(flds["dict"])), _named(E, dt(flds["cache"]))
+        k = z3.Const("sk", BYTES)
+        return SV(z3.ForAll([k], Imp(Not(OBY.is_none(z3.Select(c, k))),
+                                     And(Not(OBY.is_none(z3.Select(d, k))), OBY.val(z3.Select(c, k)) == _vunpk(OBY.val(z3.Select(d, k))))),
+                            patterns=[z3.Select(c, k)]), TBool)
+    return f
+
+
+SINV = [shelf_inv()]
+S_SAME = ["self.writeback == old(self.writeback)", "self._protocol == old(self._protocol)"]
+contract(BS + ".__getitem__", params=dict(self=BST, key=TBytes), returns=TBytes, modifies=["self"], requires=SINV, locals={"value": TBytes},
+         raises={"KeyError": dict(when="key not in self.dict", iff=True)},
+         raise_ensures={"KeyError": SINV + S_SAME + ["self.dict == old(self.dict)"]},
+         ensures=SINV + S_SAME + ["result == unpickled_v(self.dict[key])", "self.dict == old(self.dict)"], no_runtime=True, props=["C20"])
+contract(BS + ".__setitem__", params=dict(self=BST, key=TBytes, value=TBytes), modifies=["self"],
+         # without write-back the cache is not updated: it must not hold a different value for this key (sync re-stores cached values)
+         requires=SINV + ["self.writeback or key not in self.cache or self.cache[key] == value"],
+         ensures=SINV + S_SAME + ["dmap(self.dict) == dput(old(self.dict), key, pickled_v(value))",
+                                  "dkeys(self.dict) == (dkeys(old(self.dict)) if key in old(self.dict) else dkeys(old(self.dict)) + [key])",
+                                  "implies(not old(self.writeback), self.cache == old(self.cache))",
+                                  "implies(old(self.writeback), dmap(self.cache) == dput(old(self.cache), key, value))"],
+         no_runtime=True, props=["C20"])
+contract(BS + ".__delitem__", params=dict(self=BST, key=TBytes), modifies=["self"], requires=SINV,
+         raises={"KeyError": dict(when="key not in old(self.dict)", iff=True)},
+         raise_ensures={"KeyError": SINV + S_SAME + ["self.dict == old(self.dict)"]},
+         ensures=SINV + S_SAME + ["dmap(self.dict) == ddel(old(self.dict), key)"], no_runtime=True, props=["C20"])
+contract(BS + ".__contains__", params=dict(self=BST, key=TBytes), returns=TBool, ensures=["result == (key in self.dict)"], no_runtime=True, props=["C20"])
+contract(BS + ".__len__", params=dict(self=BST), returns=TInt, ensures=["result == len(self.dict)"], no_runtime=True, props=["C20"])
+def keys_present(E, env):
+    """every key the iteration yields is present in the store (B4, per element, from the dict iteration facts)"""
+    r = _named(E, E.list_sv(env["result"]).t)
+    d = E.cell(E.cell(env["self"])[2]["dict"])[1].t
+    i = z3.Int("ki")
+    return SV(z3.ForAll([i], Imp(And(0 <= i, i < Len(r)), Not(OBY.is_none(z3.Select(d, r[i])))), patterns=[nth_pat(r, i)]), TBool)
+
+
+contract(BS + ".__iter__", params=dict(self=BST), returns=TList(TBytes), ensures=["result == dkeys(self.dict)", keys_present],
+         loops={0: dict(invariant=["result == dkeys(self.dict)[:it]", "n_iter == len(dkeys(self.dict))", keys_present])},
+         no_runtime=True, props=["C20"])
+contract(BS + ".get", params=dict(self=BST, key=TBytes, default=TBytes), returns=TBytes, modifies=["self"], requires=SINV,
+         ensures=SINV + S_SAME + ["result == (unpickled_v(self.dict[key]) if key in self.dict else default)", "self.dict == old(self.dict)"],
+         no_runtime=True, props=["C20"])
+
+
+def shelf_view_same(E, env):
+    """same keys in the same order, every record unpickles to the same value (the bytes of a record may have been re-pickled)"""
+    pre_env, pre_heap, pre_ghost = E.old_stack[-1]
+    dn = E.cell(E.cell(env["self"])[2]["dict"])[1]
+    do = pre_heap[pre_heap[pre_env["self"].cid][2]["dict"].cid][1]
+    k = z3.Const("sk", BYTES)
+    n_, o_ = _named(E, dn.t), do.t
+    return SV(And(E.dkeys(dn) == E.dkeys(do),
+                  z3.ForAll([k], And(OBY.is_none(z3.Select(n_, k)) == OBY.is_none(z3.Select(o_, k)),
+                                     Imp(Not(OBY.is_none(z3.Select(o_, k))),
+                                         _vunpk(OBY.val(z3.Select(n_, k))) == _vunpk(OBY.val(z3.Select(o_, k))))),
+                            patterns=[z3.Select(n_, k)])), TBool)
+
+
+contract(BS + ".sync", params=dict(self=BST), modifies=["self"], requires=SINV,
+         ensures=SINV + S_SAME + [shelf_view_same], no_runtime=True, props=["C20"],
+         loops={0: dict(invariant=SINV + NOFX + ["not self.writeback", "self._protocol == old(self._protocol)", shelf_view_same,
+                                                "self.cache == old(self.cache)"])}, modifies_ghost=["fh_pos"])
+# collections.abc.MutableMapping.clear / popitem as documented (B5), restated as ghost code over __iter__/__getitem__/__delitem__
+contract(BS + ".clear", params=dict(self=BST), modifies=["self"], requires=SINV,
+         body="""def clear(self):
+    try:
+        while True:
+            it = iter(self)
+            try:
+                key = next(it)
+            except StopIteration:
+                raise KeyError
+            value = self[key]
+            del self[key]
+    except KeyError:
+        pass
+""",
+         ghost_scope="data_persistence/bytes_shelf.py", locals={"value": TBytes},
+         loops={0: dict(invariant=SINV + S_SAME + NOFX)}, modifies_ghost=["fh_pos"],
+         ensures=SINV + S_SAME + ["len(self.dict) == 0"], no_runtime=True, props=["C20"])
+
+# ---- DBMDict: the public wrapper delegates to its shelf; non-bytes values are refused without effect ----------------------------
+DBM = PDM + "DBMDict"
+klass(DBM, fields={"_DBMDict__file_path": TStr, "_DBMDict__closed": TBool, "_DBMDict__shelf": BST})
+DBMT = TObj(DBM)
+SH = "self.__shelf"
+D_INV = [shelf_inv("self>_DBMDict__shelf")]
+D_SAME = ["%s.writeback == old(%s.writeback)" % (SH, SH), "self.__file_path == old(self.__file_path)", "self.__closed == old(self.__closed)"]
+contract(DBM + ".__getitem__", params=dict(self=DBMT, key=TBytes), returns=TBytes, modifies=["self"], requires=D_INV,
+         raises={"KeyError": dict(when="key not in %s.dict" % SH, iff=True)},
+         raise_ensures={"KeyError": D_INV + D_SAME + ["%s.dict == old(%s.dict)" % (SH, SH)]},
+         ensures=D_INV + D_SAME + ["result == unpickled_v(%s.dict[key])" % SH, "%s.dict == old(%s.dict)" % (SH, SH)],
+         no_runtime=True, props=["C20"])
+contract(DBM + ".__setitem__", params=dict(self=DBMT, key=TBytes, value=TBytes), modifies=["self"],
+         requires=D_INV + ["%s.writeback" % SH],
+         ensures=D_INV + D_SAME + ["dmap(%s.dict) == dput(old(%s.dict), key, pickled_v(value))" % (SH, SH)], no_runtime=True, props=["C20"])
+contract(DBM + ".__setitem__#notbytes", params=dict(self=DBMT, key=TBytes, value=TInt), requires=D_INV,
+         raises={"TypeError": dict(when="True", iff=True)}, raise_ensures={"TypeError": D_INV + D_SAME + ["%s.dict == old(%s.dict)" % (SH, SH)]},
+         no_runtime=True, props=["C20"])
+contract(DBM + ".__delitem__", params=dict(self=DBMT, key=TBytes), modifies=["self"], requires=D_INV,
+         raises={"KeyError": dict(when="key not in old(%s.dict)" % SH, iff=True)},
+         raise_ensures={"KeyError": D_INV + D_SAME + ["%s.dict == old(%s.dict)" % (SH, SH)]},
+         ensures=D_INV + D_SAME + ["dmap(%s.dict) == ddel(old(%s.dict), key)" % (SH, SH)], no_runtime=True, props=["C20"])
+contract(DBM + ".__contains__", params=dict(self=DBMT, key=TBytes), returns=TBool, ensures=["result == (key in %s.dict)" % SH],
+         no_runtime=True, props=["C20"])
+contract(DBM + ".__len__", params=dict(self=DBMT), returns=TInt, ensures=["result == len(%s.dict)" % SH], no_runtime=True, props=["C20"])
+contract(DBM + ".clear", params=dict(self=DBMT), modifies=["self"], requires=D_INV,
+         ensures=D_INV + D_SAME + ["len(%s.dict) == 0" % SH], no_runtime=True, modifies_ghost=["fh_pos"], props=["C20"])
+# one session: what was stored is what is read, a deleted key is gone, clear empties (client lemmas over the contracts)
+GD = "data_persistence/persistent_dict.py"
+contract("ghost:dbm_set_get", params=dict(d=DBMT, k=TBytes, v=TBytes, k2=TBytes), returns=TBytes, ghost_scope=GD,
+         body="def dbm_set_get(d, k, v, k2):\n    d[k] = v\n    return d[k2]\n",
+         requires=[shelf_inv("d>_DBMDict__shelf"), "d.__shelf.writeback", "k2 == k or k2 in d.__shelf.dict"], modifies=["d"],
+         ensures=["result == (v if k2 == k else unpickled_v(old(d.__shelf.dict)[k2]))"], props=["C20"])
+contract("ghost:dbm_del_contains", params=dict(d=DBMT, k=TBytes, k2=TBytes), returns=TBool, ghost_scope=GD,
+         body="def dbm_del_contains(d, k, k2):\n    del d[k]\n    return k2 in d\n",
+         requires=[shelf_inv("d>_DBMDict__shelf"), "k in d.__shelf.dict"], modifies=["d"],
+         ensures=["result == (k2 != k and k2 in old(d.__shelf.dict))"], props=["C20"])
+contract("ghost:dbm_clear_len", params=dict(d=DBMT), returns=TInt, ghost_scope=GD,
+         body="def dbm_clear_len(d):\n    d.clear()\n    return len(d)\n",
+         requires=[shelf_inv("d>_DBMDict__shelf")], modifies=["d"], ensures=["result == 0"], modifies_ghost=["fh_pos"], props=["C20"])
